@@ -17,7 +17,8 @@ class C07(TreeCheck):
         "programs from g_idle (timeout in {0.5,0.1,0.02,0.005,0.001}; 1-6 workers; bursts separated by pauses of 0.5x-3x the timeout; slow pickling; "
         "resizes; memory-leak exits forced by an initializer; waited / non-waited shutdown or interpreter exit) in profile mode, with a delay of 3x the "
         "timeout at a statement of submit/spawn/dispatch/announcement processing/respawn/_resize/shutdown_workers in the parent (D), at a statement of "
-        "the worker between Empty, the management-lock probe, the pid announcement and the exit-lock wait (WD), and jitter (Z). Non-trivial = at least "
+        "the worker between Empty, the management-lock probe, the pid announcement and the exit-lock wait (WD), and jitter (Z); families nowait_pending (shutdown(wait=False) "
+        "with slowly pickled work on its way while every idle timer fires) and submit_into_expiring_pool (a single submit into a started idle pool, held at each statement of submit() in turn for 4x the timeout). Non-trivial = at least "
         "one worker left through the time-out or memory-leak branch (classified from its own line events); distinct = (shape, mode, injection "
         "function, exit-path multiset bucket, respawn warning seen)."
     )
@@ -25,13 +26,18 @@ class C07(TreeCheck):
 
     def bases(self, tier, rng):
         n = 16 if tier == "quick" else 140
-        return [dict(zip(("program", "meta"), programs.g_idle(rng)), config={"keep_procs": True}) for _ in range(n)]
+        return [dict(zip(("program", "meta"), programs.g_idle(rng, family={2: "nowait_pending", 5: "submit_into_expiring_pool"}.get(i % 8))), config={"keep_procs": True}) for i in range(n)]
 
     def derive(self, base, F, rng, tier):
         quick = tier == "quick"
         out = explore.derive_D(F, base, rng, 16 if quick else 45, quals=QUALS)
         out += explore.derive_WD(F, base, rng, 10 if quick else 25, quals=["_process_worker", "Queue.get", "SimpleQueue.put", "SemLock.acquire", "SemLock.release", "_python_exit"])
         out += explore.derive_DS(F, base, rng, 2 if quick else 4)
+        if base["meta"].get("family") == "submit_into_expiring_pool":
+            # the second submit() is held at each of its statements in turn while every worker of the idle pool expires
+            tmo = base["meta"]["kw"]["timeout"]
+            for pt in explore.points_of(F, role="driver", thr="user", quals=["ProcessPoolExecutor.submit", "_ReusablePoolExecutor.submit", "ProcessPoolExecutor._ensure_executor_running"]):
+                out.append(({"rules": [explore.rule(pt, ["sleep", round(4 * tmo + 0.3, 3)], hit=2)]}, {"mode": "D", "fn": pt["qual"], "thr": "user", "at": "second_submit"}))
         out += explore.derive_Z(rng, 2 if quick else 6)
         return out
 
@@ -49,7 +55,7 @@ class C07(TreeCheck):
         for p in paths:
             self._exit_paths[p] = self._exit_paths.get(p, 0) + 1
         self._respawn_warnings = getattr(self, "_respawn_warnings", 0) + (1 if warned else 0)
-        return (m.get("kind"), m.get("kw", {}).get("timeout"), m.get("kw", {}).get("max_workers"), m.get("ending"), m.get("mode"), m.get("fn"), min(n_to, 4), warned)
+        return (m.get("kind"), m.get("kw", {}).get("timeout"), m.get("kw", {}).get("max_workers"), m.get("ending"), m.get("family"), m.get("mode"), m.get("fn"), min(n_to, 4), warned)
 
     def extra_coverage(self):
         return {"worker_exit_paths": getattr(self, "_exit_paths", {}), "cases_with_respawn_warning": getattr(self, "_respawn_warnings", 0)}
